@@ -53,7 +53,10 @@ def mk_dump(ctx, so, with_state=True):
     ev = FreshInt('dumpEnabledVer')
     ctx.track('dump.enabledVer', ev)
     state = ctx.alloc(PDict({'_SyncObj__enabledCodeVersion': ev, 'userAttr': Opaque('uservalue', FreshInt('userAttr'))})) if with_state else None
-    cluster = ctx.alloc(NSet([FreshBool('dumpMember%d' % i) for i in range(so.U)] + [FreshBool('dumpHasSelf')]))
+    has_self = FreshBool('dumpHasSelf')
+    # index U denotes this node only if it has an own address
+    ctx.assume(Implies(so.get('selfNode').isnone, Not(has_self)))
+    cluster = ctx.alloc(NSet([FreshBool('dumpMember%d' % i) for i in range(so.U)] + [has_self]))
     return (state, last, prev, cluster), dict(prev=prev, last=last, ev=ev, cluster=cluster, state=state)
 
 
@@ -68,7 +71,7 @@ def mk_dump(ctx, so, with_state=True):
       canaries=[('table-for-v0', lambda mod: mutate_function(mod, LOAD, _mut_table_v0), ['O17.6.name-table-for-restored-version']),
                 ('applied-prev', lambda mod: mutate_function(mod, LOAD, _mut_applied_prev), ['O9.4.applied-is-dump-position'])])
 def load_dump_file(ctx, clear, with_state):
-    so = SO(ctx, UNIVERSE())
+    so = SO(ctx, min(UNIVERSE(), 3))   # the member-set loops fork per node twice: universe capped at 3 other nodes in this unit
     so.assume_inv()
     dump, d = mk_dump(ctx, so, with_state)
     old = so.snapshot()
